@@ -15,7 +15,23 @@ everything with scores 2,4,1,3.
 Families (see plan()): sort (one key; also reader.column_reader / Hit values),
 sort2 (two keys, mixed directions, second assignment b), score, group,
 collapse, deep (collapse x collapse_order x score permutations x limits),
-filter (filter x mask x object form), page.
+filter (filter x mask x object form), page, seq (histories: every ordered pair
+of operations on one field run on the SAME searcher).
+
+Overlapping facets (allow_overlap=True) are enumerated on multi-valued KEYWORD
+fields (plain / vector / stored), on multi-valued NUMERIC (int with the default
+precision tiers, int with shift_step=0, float) and DATETIME fields, and on
+single-valued NUMERIC / DATETIME / BOOLEAN / ID fields with and without a
+column: every value of a document names a group of that document and nothing
+else does.
+
+Histories: all observations of a family run on one searcher per index, so a
+search is also checked after every search enumerated before it; the seq family
+enumerates every ordered pair (op1, op2) of {sort ascending, sort by a reversed
+facet, search reversed, two keys with the field reversed, group, collapse,
+column_reader} per field kind on a fresh searcher.  What op2 returns must not
+depend on op1.  A discrepancy that does not reproduce on a fresh searcher is
+reported with the shortest history ("pre") that reproduces it.
 
 Oracle: a plain-Python model.  Order is checked pairwise with the documented
 rule only (value order per key, ascending or reversed; document order on ties;
@@ -67,17 +83,31 @@ DRB = [(datetime.datetime(1999, 1, 1), datetime.datetime(2000, 1, 1)),
        (datetime.datetime(2000, 1, 1), datetime.datetime(2000, 12, 31)),
        (datetime.datetime(2000, 12, 31), datetime.datetime(2001, 12, 31))]
 
-# key types backed by one schema field of the same name
-FIELD_KTS = ("tc", "txc", "tp", "num", "nump", "numfp", "dt", "dtp", "bo")
+# multi-valued numeric / date fields: v1 -> [x], v2 -> [y], v3 -> [x, y]
+MNUM = [[-3], [70000], [-3, 70000]]
+MFLT = [[-1.5], [2.25], [-1.5, 2.25]]
+MDTS = [[DTS[0]], [DTS[2]], [DTS[0], DTS[2]]]
+
+# key types backed by one schema field of the same name ("numfc": only in the
+# seq family)
+FIELD_KTS = ("tc", "txc", "tp", "num", "nump", "numfp", "dt", "dtp", "bo", "numfc")
 # field key types that have a column
 COLUMN_KTS = ("tc", "txc", "num", "dt")
+SEQ_COLUMN_KTS = COLUMN_KTS + ("numfc",)
+# overlapping FieldFacet on a multi-valued numeric / date field (own field)
+MULTI_KTS = ("nmo", "nmz", "nfo", "dmo")
+# overlapping FieldFacet on a single-valued field of another key type
+SINGLE_OVERLAP = {"numo": "num", "numpo": "nump", "dtpo": "dtp", "boo": "bo", "tco": "tc"}
 # derived key types -> the schema field they read
 DERIVED = {"st": "st", "qf": "tp", "qfo": "tp", "rf": "num", "drf": "dt",
-           "kw": "kw", "kwv": "kwv", "kws": "kws", "qfov": "kw"}
-OVERLAP_KTS = ("kw", "kwv", "kws", "qfov")
+           "kw": "kw", "kwv": "kwv", "kws": "kws", "qfov": "kw",
+           "nmo": "nmo", "nmz": "nmz", "nfo": "nfo", "dmo": "dmo"}
+DERIVED.update(SINGLE_OVERLAP)
+OVERLAP_KTS = ("kw", "kwv", "kws", "qfov") + MULTI_KTS + tuple(sorted(SINGLE_OVERLAP))
 VALUES = {"tc": TXT, "txc": TXW, "tp": TXT, "num": NUM, "nump": NUM, "numfp": FLT,
           "dt": DTS, "dtp": DTS, "bo": BOO, "st": TXT, "kw": KWS, "kwv": KWS,
-          "kws": KWS}
+          "kws": KWS, "numfc": FLT,
+          "nmo": MNUM, "nmz": MNUM, "nfo": MFLT, "dmo": MDTS}
 
 
 def field_of(kt):
@@ -112,6 +142,17 @@ def make_field(kt):
         return fields.KEYWORD(vector=True)
     if kt == "kws":
         return fields.KEYWORD(stored=True)
+    if kt == "numfc":
+        return fields.NUMERIC(float, sortable=True)
+    if kt == "nmo":
+        # the default: 32 bit, shift_step=4, i.e. 8 precision tiers per value
+        return fields.NUMERIC(int)
+    if kt == "nmz":
+        return fields.NUMERIC(int, shift_step=0)
+    if kt == "nfo":
+        return fields.NUMERIC(float)
+    if kt == "dmo":
+        return fields.DATETIME()
     raise ValueError(kt)
 
 
@@ -268,7 +309,7 @@ def make_facet(kt, g, rev=False, tab=None, **kw):
     if kt == "fn":
         table = list(tab)
         return sorting.FunctionFacet(lambda searcher, docid: table[docid], **kw)
-    if kt in ("kw", "kwv"):
+    if kt in ("kw", "kwv") or kt in MULTI_KTS or kt in SINGLE_OVERLAP:
         return sorting.FieldFacet(f, allow_overlap=True, **kw)
     if kt == "kws":
         return sorting.StoredFieldFacet(f, allow_overlap=True, **kw)
@@ -300,6 +341,10 @@ def group_names(M, kt, g, i, tab=None):
     if kt == "fn":
         return [tab[i]]
     v = M.assign[g][i]
+    if kt in MULTI_KTS:
+        return list(VALUES[kt][v - 1]) if v else [None]
+    if kt in SINGLE_OVERLAP:
+        return [VALUES[SINGLE_OVERLAP[kt]][v - 1]] if v else [None]
     if kt in OVERLAP_KTS:
         if v == 0:
             return [None]
@@ -322,7 +367,7 @@ def group_names(M, kt, g, i, tab=None):
 
 def canon_name(kt, name):
     """group names the documentation does not pin down are normalised"""
-    if kt == "bo" and name in ("t", "f"):
+    if kt in ("bo", "boo") and name in ("t", "f"):
         return name == "t"
     if isinstance(name, tuple):
         return tuple(name)
@@ -430,6 +475,8 @@ def engaged(out, r):
         names.add(type(c).__name__)
         cat = getattr(c, "categorizer", None)
         if cat is not None:
+            names.add(type(cat).__name__)
+        for cat in (getattr(c, "categorizers", None) or {}).values():
             names.add(type(cat).__name__)
         c = getattr(c, "child", None)
 
@@ -570,7 +617,8 @@ def obs_sort(s, M, p):
         out.add("len", "len(results)=%d but %d documents match" % (n, len(exp)))
     if r.scored_length() != len(full):
         out.add("scored_length", "scored_length()=%d, %d hits" % (r.scored_length(), len(full)))
-    check_limits(out, run, full, len(exp))
+    if not p.get("nolimits"):
+        check_limits(out, run, full, len(exp))
     out.info["nontrivial"] = len(exp) >= 2 and full != sorted(full)
     return out
 
@@ -795,7 +843,8 @@ def obs_collapse(s, M, p):
         out.add("len", "%s: len(results)=%d, expected %d (after collapsing) or %d (matching)" % (
             what, n, len(expected), len(exp)))
     # same len() whatever the limit
-    check_limits(out, run, full, None, what=what, len_ok=(set([n]) & len_ok) or len_ok)
+    if not p.get("nolimits"):
+        check_limits(out, run, full, None, what=what, len_ok=(set([n]) & len_ok) or len_ok)
     return out
 
 
@@ -1040,18 +1089,38 @@ def evaluate(case):
     if case["feat"] == "floatcol":
         return eval_floatcol(case["p"])
     ixs = dict(case["ix"])
-    c = case["p"].get("c")
-    if c is not None and list(c) not in (ixs.get("xc") or []):
-        ixs["xc"] = list(ixs.get("xc") or []) + [list(c)]
+    for _, p in all_ops(case):
+        c = p.get("c")
+        if c is not None and list(c) not in (ixs.get("xc") or []):
+            ixs["xc"] = list(ixs.get("xc") or []) + [list(c)]
     ix, M = build(ixs)
     try:
         s = open_searcher(ix, M)
         try:
+            # the history: operations the same searcher served before
+            for feat, p in case.get("pre") or ():
+                perform(s, M, feat, p)
             return observe(s, M, case["feat"], case["p"])
         finally:
             s.close()
     finally:
         ix.close()
+
+
+def perform(s, M, feat, p):
+    """run an operation of a history; what it returns is checked where it is
+    the operation under test"""
+    try:
+        observe(s, M, feat, p)
+    except core.HarnessError:
+        raise
+    except Exception:
+        pass
+
+
+def all_ops(case):
+    """[(feat, p)..]: the history of the case, then the operation under test"""
+    return [(f, p) for f, p in case.get("pre") or ()] + [(case["feat"], case["p"])]
 
 
 # -------------------------------------------------------------------------
@@ -1094,7 +1163,14 @@ def variant_of(feat, p):
 
 
 def presig(case, kind):
-    return "%s|%s|%s" % (case["feat"], variant_of(case["feat"], case["p"]), kind)
+    ps = "%s|%s|%s" % (case["feat"], variant_of(case["feat"], case["p"]), kind)
+    if case.get("pre"):
+        ps += "|after " + pre_variant(case)
+    return ps
+
+
+def pre_variant(case):
+    return "; ".join("%s %s" % (f, variant_of(f, p)) for f, p in case.get("pre") or ())
 
 
 # discrepancy kinds that identify their cause without the key type
@@ -1108,13 +1184,17 @@ def final_sig(case, kind):
         v = "any-key"
     if case["feat"] == "colread" and len(case["ix"]["segs"]) > 1:
         v = "column"
+    if case.get("pre"):
+        # the result depends on what the searcher did before: the culprit is
+        # the (shrunk) history
+        return "history|%s|%s|%s|after %s|%s" % (case["feat"], v, kind, pre_variant(case), shape(case))
     return "%s|%s|%s|%s" % (case["feat"], v, kind, shape(case))
 
 
 def simplicity(case):
     ix = case.get("ix") or {}
     return (ix.get("D", 0), len(ix.get("segs", ())), len(ix.get("deleted", ())),
-            sum(ix.get("a", ())), len(repr(case["p"])))
+            sum(ix.get("a", ())), len(case.get("pre") or ()), len(repr(case["p"])))
 
 
 def _drop_doc(case, i):
@@ -1139,16 +1219,16 @@ def _drop_doc(case, i):
         pos += size
     ix["segs"] = [x for x in ix["segs"] if x > 0]
     ix["deleted"] = [d - (1 if d > i else 0) for d in ix.get("deleted", []) if d != i]
-    p = c2["p"]
     xc = []
-    for name in ("c", "tab", "order", "gtab"):
-        if p.get(name) is not None:
-            p[name].pop(i)
-    if p.get("c") is not None:
-        xc.append(list(p["c"]))
-    for name in ("F", "M", "mask"):
-        if p.get(name) is not None:
-            p[name] = [d - (1 if d > i else 0) for d in p[name] if d != i]
+    for _, p in all_ops(c2):
+        for name in ("c", "tab", "order", "gtab"):
+            if p.get(name) is not None:
+                p[name].pop(i)
+        if p.get("c") is not None and list(p["c"]) not in xc:
+            xc.append(list(p["c"]))
+        for name in ("F", "M", "mask"):
+            if p.get(name) is not None:
+                p[name] = [d - (1 if d > i else 0) for d in p[name] if d != i]
     ix["cu"] = "none"
     ix["xc"] = xc
     return c2
@@ -1173,9 +1253,11 @@ def _simpler_kts(kt):
     out = []
     if kt != "tp":
         out.append("tp")
-    sib = {"txc": "tc", "nump": "num", "numfp": "num", "dtp": "dt", "drf": "rf", "qfo": "qf"}.get(kt)
+    sib = {"txc": "tc", "nump": "num", "numfp": "num", "dtp": "dt", "drf": "rf", "qfo": "qf",
+           "nmz": "nmo", "nfo": "nmo", "dmo": "dtpo nmo", "nmo": "numpo", "numo": "numpo", "dtpo": "numpo",
+           "boo": "numpo", "tco": "numpo"}.get(kt)
     if sib:
-        out.append(sib)
+        out.extend(sib.split())
     return out
 
 
@@ -1250,15 +1332,55 @@ def _p_variants(case):
             yield _mod(case, pagelen=p["pagelen"] - 1)
 
 
+SUBJECT_SIB = {"dt": "num", "numfc": "num", "txc": "tc", "dtp": "nump", "bo": "nump"}
+
+
+def _subst_kt(case, old, new):
+    """the case with key type ``old`` replaced by ``new`` in the history and
+    in the operation under test (both must keep reading the same field)"""
+    c2 = json.loads(json.dumps(case))
+    for feat, p in all_ops(c2):
+        if feat == "sort":
+            for k in p["keys"]:
+                if k[0] == old:
+                    k[0] = new
+        elif p.get("kt") == old:
+            p["kt"] = new
+    for g in (1, 2):
+        if [new, g] not in c2["ix"]["need"]:
+            c2["ix"]["need"].append([new, g])
+    return c2
+
+
+def _pre_variants(case):
+    """simpler histories: each operation of the history simplified like an
+    operation under test; a plainer key type for history and test together"""
+    pre = case["pre"]
+    for n, (feat, p) in enumerate(pre):
+        for v in _p_variants({"feat": feat, "p": p, "ix": case["ix"]}):
+            c2 = json.loads(json.dumps(case))
+            c2["pre"][n] = [feat, v["p"]]
+            yield c2
+    kts = set()
+    for feat, p in all_ops(case):
+        if feat == "sort":
+            kts.update(k[0] for k in p["keys"])
+        elif p.get("kt"):
+            kts.add(p["kt"])
+    for kt in sorted(kts):
+        if kt in SUBJECT_SIB:
+            yield _subst_kt(case, kt, SUBJECT_SIB[kt])
+
+
 def needed_for(case):
-    feat, p = case["feat"], case["p"]
     kts = set([("tp", 1)])
-    if feat == "sort":
-        for kt, g, rev in p["keys"]:
-            kts.add((kt, g))
-    elif feat in ("group", "collapse", "colread"):
-        kts.add((p["kt"], 1))
-    if feat == "colread":
+    for feat, p in all_ops(case):
+        if feat == "sort":
+            for kt, g, rev in p["keys"]:
+                kts.add((kt, g))
+        elif feat in ("group", "collapse", "colread"):
+            kts.add((p["kt"], 1))
+    if case["feat"] == "colread" and not case.get("pre"):
         kts.discard(("tp", 1))
     return [[kt, g] for kt, g in sorted(kts) if field_of(kt)]
 
@@ -1267,6 +1389,23 @@ def _variants(case):
     """smaller candidate cases, most aggressive first"""
     import copy
     ix = case["ix"]
+    pre = case.get("pre") or []
+    if pre:
+        # no history at all (then it is an ordinary case), then a shorter one
+        c2 = copy.deepcopy(case)
+        del c2["pre"]
+        yield c2
+        if len(pre) > 1:
+            for n in reversed(range(len(pre))):
+                c2 = copy.deepcopy(case)
+                c2["pre"] = [pre[n]]
+                yield c2
+            for n in range(len(pre)):
+                c2 = copy.deepcopy(case)
+                c2["pre"] = pre[:n] + pre[n + 1:]
+                yield c2
+        for c2 in _pre_variants(case):
+            yield c2
     if ix.get("deleted"):
         c2 = copy.deepcopy(case)
         c2["ix"]["deleted"] = []
@@ -1300,7 +1439,10 @@ def _variants(case):
                 c2["p"][name] = [x for x in p[name] if x != d]
                 yield c2
     # universe terms and fields that the case does not use
-    want_xc = [list(p["c"])] if p.get("c") is not None else []
+    want_xc = []
+    for _, q in all_ops(case):
+        if q.get("c") is not None and list(q["c"]) not in want_xc:
+            want_xc.append(list(q["c"]))
     if ix.get("cu", "none") != "none" or (ix.get("xc") or []) != want_xc:
         c2 = copy.deepcopy(case)
         c2["ix"]["cu"] = "none"
@@ -1311,7 +1453,8 @@ def _variants(case):
         c2 = copy.deepcopy(case)
         c2["ix"]["need"] = need
         yield c2
-    if ix.get("b") and ix["b"] != ix["a"] and not (case["feat"] == "sort" and any(k[1] == 2 for k in p["keys"])):
+    if ix.get("b") and ix["b"] != ix["a"] and not any(f == "sort" and any(k[1] == 2 for k in q["keys"])
+                                                      for f, q in all_ops(case)):
         c2 = copy.deepcopy(case)
         c2["ix"]["b"] = list(ix["a"])
         yield c2
@@ -1360,11 +1503,14 @@ def shape(case):
 SORT_KTS = ["tp", "tc", "txc", "num", "nump", "numfp", "dt", "dtp", "bo", "st", "qf", "qfo",
             "rf", "drf", "fn"]
 GROUP_KTS = ["tp", "tc", "txc", "num", "nump", "numfp", "dt", "dtp", "bo", "st", "qf", "qfo",
-             "rf", "drf", "fn", "kw", "kwv", "kws", "qfov"]
+             "rf", "drf", "fn", "kw", "kwv", "kws", "qfov",
+             "nmo", "nmz", "nfo", "dmo", "numo", "numpo", "dtpo", "boo", "tco"]
+# overlapping facets on numeric / date / single-valued fields: two observations each
+LIGHT_GROUP_KTS = MULTI_KTS + tuple(sorted(SINGLE_OVERLAP))
 COLLAPSE_KTS = ["tp", "tc", "num", "nump", "numfp", "dt", "dtp", "bo", "st", "qf", "rf", "fn"]
 NEED1 = [["tc", 1], ["txc", 1], ["tp", 1], ["num", 1], ["nump", 1], ["numfp", 1], ["dt", 1],
          ["dtp", 1], ["bo", 1], ["st", 1]]
-NEED_GROUP = NEED1 + [["kw", 1], ["kwv", 1], ["kws", 1]]
+NEED_GROUP = NEED1 + [["kw", 1], ["kwv", 1], ["kws", 1], ["nmo", 1], ["nmz", 1], ["nfo", 1], ["dmo", 1]]
 PAIR_KTS = [("tp", "tc"), ("tc", "num"), ("num", "tp"), ("dt", "bo"), ("bo", "dtp"),
             ("nump", "tc"), ("qfo", "num"), ("tp", "sc"), ("sc", "tp"), ("fn", "dt"),
             ("tc", "fn"), ("txc", "nump")]
@@ -1435,7 +1581,8 @@ def cases_group(M, D, c, tab):
             p.update(kw)
             return p
         yield "group", P(mode="scored", limit=None, form="name" if kt in FIELD_KTS else "facet")
-        yield "group", P(mode="scored", limit=1, form="dict")
+        if kt not in LIGHT_GROUP_KTS:
+            yield "group", P(mode="scored", limit=1, form="dict")
         yield "group", P(mode="sorted", tab=tab, limit=None, form="pair")
         if kt in ("tp", "num", "kw", "qf"):
             for mt in ("count", "unordered", "best", "ordered"):
@@ -1471,6 +1618,32 @@ def cases_collapse_deep(M, D, orders, clists, tabs):
             for tab in tabs:
                 yield "collapse", {"kt": "tp", "climit": N, "order": order, "mode": "sorted",
                                    "tab": tab, "c": clists[0]}
+
+
+SEQ_KTS = ["num", "dt", "numfc", "tc", "nump", "bo"]
+# key types whose column reader is switched to reversed keys by set_reverse()
+SET_REVERSE_KTS = ("num", "dt", "numfc")
+
+
+def seq_ops(kt, D):
+    """the operations on one field that are run in every order on one searcher"""
+    c = default_c(D)
+    ops = [("sort", {"keys": [[kt, 1, False]], "orev": False, "form": "name"}),
+           ("sort", {"keys": [[kt, 1, True]], "orev": False, "form": "facet"}),
+           ("sort", {"keys": [[kt, 1, False]], "orev": True, "form": "facet"}),
+           ("sort", {"keys": [["tp", 2, False], [kt, 1, True]], "orev": False, "form": "multi"}),
+           ("group", {"kt": kt, "c": c, "mode": "scored", "limit": None, "form": "name"}),
+           ("collapse", {"kt": kt, "climit": 1, "order": None, "mode": "scored", "c": c, "form": "name"})]
+    if kt in SEQ_COLUMN_KTS:
+        ops.append(("colread", {"kt": kt}))
+    return ops
+
+
+def as_history(feat, p):
+    """an operation in the role of history: the unlimited search only"""
+    if feat in ("sort", "collapse"):
+        return feat, dict(p, nolimits=True)
+    return feat, p
 
 
 def subsets(D):
@@ -1577,6 +1750,8 @@ def family_ix(fam, D, a, b, segs, deleted):
         ixs.update(need=[["tp", 1]], cu="none", xc=[c])
     elif fam == "page":
         ixs.update(need=[["tp", 1]], cu="none", xc=[c])
+    elif fam == "seq":
+        ixs.update(need=[[kt, 1] for kt in SEQ_KTS] + [["tp", 1], ["tp", 2]], cu="none", xc=[c])
     else:
         raise ValueError(fam)
     return ixs
@@ -1585,8 +1760,83 @@ def family_ix(fam, D, a, b, segs, deleted):
 # -------------------------------------------------------------------------
 # tasks
 
+def _record(raw, acc, case, kind, what, multiseg):
+    ps = presig(case, kind) + "|" + ("multiseg" if multiseg else "oneseg")
+    acc.count("violating_observations")
+    cur = raw.get(ps)
+    if cur is None:
+        raw[ps] = [case, kind, what, 1]
+    else:
+        cur[3] += 1
+        if simplicity(case) < simplicity(cur[0]):
+            cur[0], cur[2] = case, what
+
+
+def seq_task(t):
+    """every ordered pair of operations on one field, on one searcher"""
+    fam, tier, specs = t
+    acc = core.Acc()
+    raw = {}
+    for D, a, b, segs, deleted in specs:
+        ixs = family_ix("seq", D, a, b, segs, deleted)
+        ix, M = build(ixs)
+        acc.count("indexes")
+        multiseg = len(segs) > 1
+        try:
+            for kt in SEQ_KTS:
+                ops = seq_ops(kt, D)
+                base = []
+                # each operation on a searcher without history
+                for feat, p in ops:
+                    s = open_searcher(ix, M)
+                    try:
+                        o = observe(s, M, feat, p)
+                    finally:
+                        s.close()
+                    acc.count("evaluations")
+                    acc.count("evaluations_seq")
+                    base.append(set(o.kinds()))
+                    for kind, what in o.items:
+                        _record(raw, acc, json.loads(json.dumps({"ix": ixs, "feat": feat, "p": p})),
+                                kind, what, multiseg)
+                for i, (f1, p1) in enumerate(ops):
+                    f1, p1 = as_history(f1, p1)
+                    for j, (f2, p2) in enumerate(ops):
+                        if i == j:
+                            continue
+                        s = open_searcher(ix, M)
+                        try:
+                            perform(s, M, f1, p1)
+                            o = observe(s, M, f2, p2)
+                        finally:
+                            s.close()
+                        acc.count("evaluations")
+                        acc.count("evaluations_seq")
+                        acc.count("seq_ordered_pairs")
+                        if o.info.get("nontrivial"):
+                            acc.count("distinct_nontrivial")
+                        if kt in SET_REVERSE_KTS and i in (1, 3) and any(a):
+                            acc.count("seq_pairs_after_a_reversed_facet_on_a_reversible_column")
+                        for name in o.info.get("engaged", ()):
+                            acc.count("engaged_" + name)
+                        if (i * 7 + j + len(segs) + sum(a)) % 499 == 5:
+                            acc.sample({"ix": ixs, "pre": [[f1, p1]], "feat": f2, "p": p2, "kinds": o.kinds()})
+                        for kind, what in o.items:
+                            if kind in base[j]:
+                                continue        # not a matter of history: reported above
+                            case = json.loads(json.dumps({"ix": ixs, "pre": [[f1, p1]], "feat": f2, "p": p2}))
+                            _record(raw, acc, case, kind, "after %s %s: %s" % (f1, variant_of(f1, p1), what), multiseg)
+        finally:
+            ix.close()
+    res = acc.result()
+    res["raw"] = raw
+    return res
+
+
 def task(t):
     fam, tier, specs = t
+    if fam == "seq":
+        return seq_task(t)
     acc = core.Acc()
     raw = {}
     for D, a, b, segs, deleted in specs:
@@ -1609,16 +1859,11 @@ def task(t):
                     if (n + len(segs) + sum(a)) % 997 == 5:
                         acc.sample({"ix": ixs, "feat": feat, "p": p, "kinds": o.kinds()})
                     for kind, what in o.items:
-                        case = json.loads(json.dumps({"ix": ixs, "feat": feat, "p": p}))
-                        ps = presig(case, kind) + "|" + ("multiseg" if len(segs) > 1 else "oneseg")
-                        acc.count("violating_observations")
-                        cur = raw.get(ps)
-                        if cur is None:
-                            raw[ps] = [case, kind, what, 1]
-                        else:
-                            cur[3] += 1
-                            if simplicity(case) < simplicity(cur[0]):
-                                cur[0], cur[2] = case, what
+                        # "hist": the observation was the n-th on this searcher
+                        # (used when it does not reproduce on a fresh one)
+                        case = json.loads(json.dumps({"ix": ixs, "feat": feat, "p": p,
+                                                      "hist": [fam, tier, n]}))
+                        _record(raw, acc, case, kind, what, len(segs) > 1)
             finally:
                 s.close()
         finally:
@@ -1647,8 +1892,30 @@ def floatcol_task(t):
     return res
 
 
+def with_history(case, kind, hist):
+    """The observation showed ``kind`` as the n-th observation on the searcher
+    of its task but does not on a fresh searcher: give it the shortest suffix
+    (doubling) of the observations made before it that reproduces it."""
+    fam, tier, n = hist
+    ixs = case["ix"]
+    M = Model(ixs["D"], ixs["a"], ixs.get("b") or ixs["a"], ixs["segs"], ixs.get("deleted") or [])
+    full = json.loads(json.dumps([[f, p] for f, p in itertools.islice(family_cases(fam, M, ixs, tier), n)]))
+    k = 1
+    while True:
+        c2 = dict(case, pre=full[-k:] if k < len(full) else full)
+        if kind in evaluate(c2).kinds():
+            return c2
+        if k >= len(full):
+            raise core.HarnessError("observation reproduces neither on a fresh searcher nor after the %d "
+                                    "observations made before it: %r %s" % (len(full), case, kind))
+        k *= 2
+
+
 def shrink_task(t):
     case, kind, what, n = t
+    hist = case.pop("hist", None)
+    if hist and not case.get("pre") and kind not in evaluate(case).kinds():
+        case = with_history(case, kind, hist)
     small = shrink(case, kind)
     o = evaluate(small)
     msg = dict(o.items).get(kind, what)
@@ -1760,6 +2027,20 @@ def plan(tier, seed):
         if not quick:
             specs.append((4, a, None, [1, 3], [0]))
     out.append(("deep", specs, 2 if quick else 1))
+    # --- histories: ordered pairs of operations on one searcher
+    specs = []
+    b3 = [1, 1, 2]
+    sdels = [[0], [2], [1]]
+    for n, a in enumerate(assignments(3, (0, 1, 2)) if quick else assignments(3)):
+        for m, segs in enumerate(comps3):
+            specs.append((3, a, b3, segs, []))
+            if not quick or (n + m + seed) % 4 == 0:
+                specs.append((3, a, b3, segs, sdels[(n + m + seed) % 3]))
+    if not quick:
+        for n, a in enumerate(assignments(4, (0, 1, 2))):
+            for segs in ([4], [2, 2], [1, 3], [1, 1, 2]):
+                specs.append((4, a, [1, 1, 2, 2], segs, []))
+    out.append(("seq", specs, 6))
     return out
 
 
@@ -1843,25 +2124,41 @@ def run(ctx):
     ctx.rule = (
         "index = (D documents; assignment a: documents -> {missing,v1,v2,v3} applied to every key-type field: "
         "ID/TEXT with column, ID without column, NUMERIC int with/without column, NUMERIC float, DATETIME "
-        "with/without column, BOOLEAN, STORED, multi-valued KEYWORD plain/vector/stored; segment composition; "
+        "with/without column, BOOLEAN, STORED, multi-valued KEYWORD plain/vector/stored, multi-valued NUMERIC int "
+        "(default shift_step / shift_step=0), NUMERIC float and DATETIME without column; segment composition; "
         "deletion set). sort/group/collapse: all 4^4 assignments x all 8 compositions of 4 (so every "
         "'segment without the column' layout) x deletion family (" +
         ("none, plus one rotating deletion set" if quick else "4-7 deletion sets") +
         "), and all 4^5 assignments of D=5 x " +
         ("one rotating composition (sorts only)" if quick else "8 of the 16 compositions (rotating)") +
-        "; per index every observation of the family. sort: 15 key kinds x {ascending, facet reversed, "
+        "; per index every observation of the family, all on ONE searcher in a fixed order (an observation "
+        "that fails there but not on a fresh searcher is reported with the shortest reproducing history). "
+        "sort: 15 key kinds x {ascending, facet reversed, "
         "search reversed} x limits {None,1,2} + column_reader/Hit values; sort2: 12 key-kind pairs x direction "
         "combinations over all (a, b) with " +
         ("D=3 (a in 4^3, b in 3^3) and a rotating eighth of 3^4 x 3^4" if quick else
          "D=3 (4^3 x 4^3, all compositions) and D=4 (3^4 x 3^4, 2 compositions)") +
         "; score: every score vector in {1,2,3}^D and every permutation x {plain, reverse, ScoreFacet, "
-        "field+ScoreFacet} x limits; group: 19 facet kinds (4 overlapping) x scored/sorted/limited/filtered x "
-        "map types x groupedby forms; collapse: 12 key kinds x collapse_limit 1..2 x scored/sorted x limits, "
+        "field+ScoreFacet} x limits; group: 28 facet kinds x scored/sorted/limited/filtered x "
+        "map types x groupedby forms, 13 of them overlapping (allow_overlap=True): multi-valued KEYWORD "
+        "plain/vector/stored, overlapping QueryFacet, multi-valued NUMERIC int (default 8 precision tiers), "
+        "NUMERIC int shift_step=0, NUMERIC float, DATETIME (values [x], [y], [x, y] or missing), and "
+        "single-valued NUMERIC with/without column, DATETIME, BOOLEAN, ID with column (the last 9: unlimited "
+        "scored and sorted+second-facet observations only); collapse: 12 key kinds x collapse_limit 1..2 x scored/sorted x limits, "
         "and (deep) a in 3^4 x " + ("7" if quick else "27") + " collapse_order tables x every score permutation "
         "x collapse_limit 1..2 x limits {None,1,2}; filter: every filter set x every mask set (16 x 16, D=4" +
         ("" if quick else "; 32 x 32, D=5") + ") x object forms {query, Results, set, BitSet} x scored/sorted x "
         "limits on every composition x deletion sets; page: every match set x pagenum 1..3 x pagelen 1..3 x "
-        "scored/sorted/filtered on every composition x every deletion set. An observation is non-trivial when "
+        "scored/sorted/filtered on every composition x every deletion set; seq (histories): all " +
+        ("3^3 assignments (missing, v1, v2)" if quick else "4^3 assignments") +
+        " of D=3 x all 4 compositions (" + ("plus a rotating deletion for a quarter" if quick else
+                                           "with and without a deletion, plus 3^4 assignments of D=4 x 4 compositions") +
+        ") x 6 field kinds (NUMERIC int/float, DATETIME and ID with column; NUMERIC and BOOLEAN without) x "
+        "every ordered pair (op1, op2), op1 != op2, of {sort ascending by name, sort by FieldFacet(reverse=True), "
+        "ascending with search reverse=True, MultiFacet [other field, this field reversed], groupedby, collapse, "
+        "column_reader + Hit values}: op1 then op2 on a fresh searcher, op2 judged by the same oracle as on its "
+        "own (a discrepancy it also shows without op1 is reported without history). An observation is "
+        "non-trivial when "
         "the view differs from the identity: sorted order differs from document order, >=2 groups, >=1 document "
         "collapsed, filter keeps a proper non-empty subset, more hits than fit on the page. Enumerated "
         "without repetition; violations are shrunk (documents, segments, deletions, parameters, key type) "
@@ -1876,6 +2173,10 @@ def run(ctx):
         "len(results) of a collapsed search may be the number of matching or of surviving documents, "
         "but the same for every limit",
         "BOOLEAN group names may be 't'/'f' or True/False",
+        "searches do not change a searcher: what a search returns does not depend on the searches the same "
+        "searcher served before (implied by 'exact views': the oracle is a function of index and arguments)",
+        "a multi-valued NUMERIC/DATETIME document is indexed with add_document(field=[x, y]); its overlapping "
+        "groups are named by the values themselves (as for the non-overlapping facet of the same field)",
         "collapse_order ties at the cut: any best-N choice accepted",
     ]
     results = ctx.pmap(task, tasks)
@@ -1919,8 +2220,12 @@ def run(ctx):
         raise core.HarnessError("vacuous: no index with a segment lacking the column")
     if c.get("distinct_nontrivial", 0) < 1000:
         raise core.HarnessError("vacuous: too few non-trivial observations")
+    if c.get("seq_pairs_after_a_reversed_facet_on_a_reversible_column", 0) < 1000:
+        raise core.HarnessError("vacuous: only %d ordered pairs started with a reversed facet on a reversible column"
+                                % c.get("seq_pairs_after_a_reversed_facet_on_a_reversible_column", 0))
     for name in ("TopCollector", "UnlimitedCollector", "SortingCollector", "FilterCollector",
-                 "ColumnCategorizer", "PostingCategorizer", "ReversedColumnCategorizer"):
+                 "ColumnCategorizer", "PostingCategorizer", "ReversedColumnCategorizer",
+                 "OverlappingCategorizer"):
         if c.get("engaged_" + name, 0) < 100:
             raise core.HarnessError("vacuous: %s engaged in only %d observations" % (name, c.get("engaged_" + name, 0)))
 
